@@ -2,27 +2,29 @@
    Full statements (DESIGN.md section 5, C16): xmi_json_xmi and json_xmi_json as corollaries of xmi_roundtrip,
    json_roundtrip, load_produces_wf and inline_outline.  What is proved here are the compositions through canonical
    content; their inputs are (a) the codec theorems of both formats — denote_save_json (C02, proved) and denote_save_xmi
-   (C01/C04, proved by the XMI development), (b) the agreement of the JSON reader model with the denotation on the
-   document (C05; evaluated in Coq on every document of every chain), (c) inline_outline_at: the XMI view of a CAS is
-   inline_of of its JSON view (Convert.v; evaluated in Coq on all four CASes of every chain).  (b) and (c) are explicit
-   premises, hence the suffix _partial. *)
-From Cassis Require Import Base Heap Schema Canon Reach JsonDoc Json JsonProofs CorrC02 Convert ConvertProofs.
+   (C01/C04, proved by the XMI development), (b) the JSON reader = denotation theorem (JsonLoadProofs.load_json_is_denotation,
+   proved; its premise doc_ok_json is a boolean on the written document, evaluated on every document of every chain),
+   (c) inline_outline_at: the XMI view of a CAS is inline_of of its JSON view (Convert.v; evaluated in Coq on all four
+   CASes of every chain).  (c) is an explicit premise, hence the suffix _partial where it occurs. *)
+From Cassis Require Import Base Heap Schema Canon Reach JsonDoc Json JsonProofs JsonLoadProofs CorrC02 Convert ConvertProofs.
 From Cassis Require Lex Xmi XmiDoc.
 From Cassis.Props Require C02.
 Open Scope Z_scope.
 
-Theorem C16_xmi_json_xmi_partial : forall L s mode c1 j c1',
+Theorem C16_xmi_json_xmi_partial : forall L s mode c1 j c1' cc,
   lex_ok L -> save_json L s mode c1 = Ok (j, c1') -> wf_jsonb s c1' = true -> 0 < c_next_id c1 ->
-  load_json L s j = denote_json L s j -> inline_outline_at s c1' ->
+  doc_ok_json L s j = true -> initial_view_in c1' = true -> canon_json s c1' = Ok cc ->
+  inline_outline_at s c1' ->
   (do x <- load_json L s j ;; inline_of s x) = Xmi.canon_xmi s c1'.
 Proof. exact xmi_json_xmi. Qed.
 Print Assumptions C16_xmi_json_xmi_partial.
 
-Theorem C16_json_leg_preserves_partial : forall L s mode c1 j c1',
+Theorem C16_json_leg_preserves : forall L s mode c1 j c1' cc,
   lex_ok L -> save_json L s mode c1 = Ok (j, c1') -> wf_jsonb s c1' = true -> 0 < c_next_id c1 ->
-  load_json L s j = denote_json L s j -> load_json L s j = canon_json s c1'.
+  doc_ok_json L s j = true -> initial_view_in c1' = true -> canon_json s c1' = Ok cc ->
+  load_json L s j = canon_json s c1'.
 Proof. exact json_leg_preserves. Qed.
-Print Assumptions C16_json_leg_preserves_partial.
+Print Assumptions C16_json_leg_preserves.
 
 Theorem C16_json_xmi_json_partial : forall L s (fmt_flt : flt -> string) (parse_flt : string -> option flt) j0 c1 x c1',
   (forall f, parse_flt (fmt_flt f) = Some f) -> (forall f, Lex.tok_ok (fmt_flt f)) ->
@@ -53,7 +55,8 @@ Example C16_premises_hold :
   match save_json std_lex s MFull (c_cas C02.ex_case) with
   | Ok (j, c') =>
       wf_jsonb s c' = true /\ 0 < c_next_id (c_cas C02.ex_case) /\
-      load_json std_lex s j = denote_json std_lex s j /\ inline_outline_at s c' /\
+      doc_ok_json std_lex s j = true /\ initial_view_in c' = true /\
+      load_json std_lex s j = canon_json s c' /\ inline_outline_at s c' /\
       match Xmi.canon_xmi s c' with Ok x => (2 <= List.length (cc_fs x))%nat | _ => False end
   | _ => False
   end.
